@@ -43,6 +43,11 @@ func ScaleFuncs() []ScaleFunc {
 		})+"\n\treturn 0\n}")
 		add("results", "func res"+n+"() ("+strings.TrimSuffix(rep(k, func(i int) string { return "int, " }), ", ")+") {\n\tpanic(0)\n}")
 		add("params", "func prm"+n+"("+strings.TrimSuffix(rep(k, func(i int) string { return fmt.Sprintf("a%d [16]byte, ", i) }), ", ")+") {}")
+		// entries that are *names* (function-local constants spelled alike in every size of the construct)
+		consts := "\tconst (\n" + rep(k, func(i int) string { return fmt.Sprintf("\t\tc%d = %d\n", i, i) }) + "\t)\n"
+		add("switchIdent", "func swN"+n+"(x int) int {\n"+consts+"\tswitch x {\n"+rep(k, func(i int) string { return fmt.Sprintf("\tcase c%d:\n\t\treturn %d\n", i, i) })+"\t}\n\treturn -1\n}")
+		add("mapLitIdent", "func mapN"+n+"() map[int]string {\n"+consts+"\treturn map[int]string{\n"+rep(k, func(i int) string { return fmt.Sprintf("\t\tc%d: \"v\",\n", i) })+"\t}\n}")
+		add("switchCondIdent", "func swB"+n+"(x int) int {\n"+consts+"\tswitch {\n"+rep(k, func(i int) string { return fmt.Sprintf("\tcase x == c%d:\n\t\treturn %d\n", i, i) })+"\t}\n\treturn -1\n}")
 		add("dupArgs", "func dupA"+n+"(s string) bool {\n\treturn "+strings.TrimSuffix(rep(k, func(i int) string { return "(s == s) || " }), " || ")+"\n}")
 	}
 	return out
